@@ -37,6 +37,10 @@ def gen(tier, seed):
         c = GC.gen_graph(rnd, kind, rnd.randint(5, 8), rnd.randint(0, 2), rnd.randint(2, 6), custom=False, fixed_mode='some', fix_first=True)
         c, _ = GC.permute(c, rnd)
         cases.append(c)
+    for kind, n in ((('R2', 14), ('SE2', 10), ('SE3', 8)) if not thorough else (('R2', 14), ('R3', 20), ('R2', 30), ('SE2', 10), ('SE2', 18), ('SE3', 8), ('SE3', 12))):
+        c = GC.gen_graph(rnd, kind, n, 2, n // 2, custom=False, fixed_mode='some', fix_first=rnd.random() < 0.5)
+        c, _ = GC.permute(c, rnd)
+        cases.append(c)
     return [c for c in cases if GC.components_fixed(c)]
 
 
